@@ -61,6 +61,14 @@ func (x *Ctx) Class(name string) {
 	x.classes = append(x.classes, name)
 }
 func (x *Ctx) NonTrivial()                 { x.nontrivial = true }
+func (x *Ctx) hasClass(name string) bool {
+	for _, c := range x.classes {
+		if c == name {
+			return true
+		}
+	}
+	return false
+}
 func (x *Ctx) Violation(sig, f string, a ...interface{}) {
 	x.viol = append(x.viol, Violation{Sig: sig, Msg: fmt.Sprintf(f, a...)})
 }
